@@ -57,6 +57,9 @@ class RecIO:
 # --------------------------------------------------------------------------
 def rand_text(r, maxlen=12) -> str:
     kinds = r.random()
+    if kinds < 0.08:
+        # texts that are falsy, or look like numbers / JSON words
+        return r.choice(['0', '', '00', 'None', 'null', 'false', 'true', '-1', '1e3', ' 7', 'NaN'])
     n = r.randrange(0, maxlen)
     out = []
     for _ in range(n):
@@ -82,6 +85,8 @@ def rand_dda(r):
     Bid, Card, Contract, Hands, Pair, Player, Suit, TH, Vul = _imp()
     if r.random() < 0.5:
         return None
+    if r.random() < 0.15:
+        return {p: {s: 0 for s in Suit} for p in Player}          # an all-zero table is a table
     return {p: {s: r.randrange(0, 14) for s in Suit} for p in Player}
 
 
